@@ -1,6 +1,7 @@
 package main
 
 import (
+	"strings"
 	"encoding/json"
 	"fmt"
 	"os"
@@ -18,6 +19,7 @@ type bfsCheck struct {
 	assume     []string
 	bounds     func(tier string) map[string]interface{}
 	minClasses int // vacuity guard: at least this many distinct outcome classes must be seen
+	propFilter string // when set, only violations whose signature starts with "<prop>:" are this check's; others are printed as notes
 }
 
 func registerBFS(b bfsCheck) {
@@ -62,6 +64,11 @@ func runBFS(b bfsCheck, tier string) int {
 	}
 	// confirm each violation by plain replays before believing it
 	for _, f := range res.Violations {
+		if b.propFilter != "" && !strings.HasPrefix(f.Sig, b.propFilter+":") {
+			fmt.Printf("NOTE: while checking %s a monitor of another property fired (reported by that property's own check): %s -- %s\n", b.id, f.Sig, f.Detail)
+			r.Note("other-property monitor fired: " + f.Sig)
+			continue
+		}
 		same := 0
 		for i := 0; i < 3; i++ {
 			if replayHas(spec, f.History, f.Sig) {
